@@ -129,7 +129,9 @@ class Report:
             stmt = norm(node) if node is not None else "-"
         if len(stmt) > 160:
             stmt = stmt[:157] + "..."
-        self.add(Finding(self.prop, rule, construct, stmt, message, file=file, line=line, path=path))
+        from .loader import demangle
+
+        self.add(Finding(self.prop, rule, construct, demangle(stmt), demangle(message), file=file, line=line, path=path))
 
     def borrow(self, repo, src_prop, mapping, keep=None):
         """Run another property's rule module and take over some of its rules under this property's own rule ids.
